@@ -4,7 +4,7 @@ from hypothesis import strategies as st
 
 from pv import framing, streams
 from pv.core import Fail, Res, Sub
-from pv.doubles import ScriptedStream
+from pv.doubles import BudgetBytesIO, ScriptedStream
 
 PROPERTY = "C01"
 RULE = (
@@ -47,7 +47,40 @@ def drive(case, data, stream):
                 break
             continue
         out.append((raw, parsed, stream.pos, stream.faults))
+    _second_pass(rdr, out, len(data))
     return out, raised
+
+
+def _second_pass(rdr, out, end):
+    """the stream is at its end: iterate the same reader again (a second for-loop, a poll). Whatever that still
+    delivers (a socket wrapper may hold bytes back behind a false frame) is judged like every other delivery - in
+    particular it must not be an earlier slice once more"""
+    import itertools
+
+    for _ in range(2):  # the first for-loop runs the iterator dry, the second starts on an exhausted reader
+        try:
+            again = list(itertools.islice(iter(rdr), len(out) + 8))
+        except Fail:
+            raise
+        except Exception:  # pylint: disable=broad-except
+            again = []  # exception types are C04's business
+        for raw, parsed in again:
+            out.append((raw, parsed, end, out[-1][3] if out else 0))
+
+
+class _FileView(BudgetBytesIO):
+    """an ordinary seekable in-memory file with the (pos, faults, exhausted) view the driver needs"""
+
+    faults = 0
+    log = ()
+
+    @property
+    def pos(self):
+        return self.tell()
+
+    @property
+    def exhausted(self):
+        return self.tell() >= len(self.getvalue())
 
 
 class _SockView:
@@ -76,7 +109,17 @@ def drive_socket(case, data):
 
     from pv.doubles import ScriptedSocket
 
-    segs = streams.split(data, case["cuts"])
+    wire = data
+    kw = {}
+    if case.get("enc"):
+        # the same bytes as an HTTP chunked body, each chunk optionally compressed (C12 decides whether de-chunking is
+        # right; here: whatever the transfer coding, only intact frames of the *decoded* stream are delivered)
+        from pv.checks import c12
+
+        step = max(1, case.get("chunk", 64))
+        wire, _ = c12.encode({"chunks": [data[i : i + step].hex() for i in range(0, len(data), step)], "enc": case["enc"], "hexcase": [0, 1], "terminator": bool(case.get("term", 1))})
+        kw = {"encoding": c12.ENC[case["enc"]]}
+    segs = streams.split(wire, [c for c in case["cuts"] if 0 < c < len(wire)])
     events = []
     for k, sg in enumerate(segs):
         events.append(sg)
@@ -89,14 +132,15 @@ def drive_socket(case, data):
             events.append("oserror:connreset")
     events.append("close")
     sock = ScriptedSocket(events)
-    sock.budget = 6 * len(data) + 8 * len(events) + 256
+    sock.budget = 6 * len(wire) + 8 * len(events) + 256
     view = _SockView(sock)
+    view.decoded = bool(kw)
     out = []
     raised = 0
     try:
-        rdr = RTCMReader(sock, validate=1, quitonerror=case["qoe"], parsed=True, bufsize=case["bufsize"])
+        rdr = RTCMReader(sock, validate=1, quitonerror=case["qoe"], parsed=True, bufsize=case["bufsize"], **kw)
         guard = 0
-        limit = 4 * len(data) + 4 * len(events) + 256
+        limit = 4 * len(wire) + 4 * len(data) + 4 * len(events) + 256
         while True:
             guard += 1
             if guard > limit:
@@ -112,7 +156,8 @@ def drive_socket(case, data):
                 if sock.closed_by_peer:
                     break
                 continue
-            out.append((raw, parsed, view.pos, view.faults))
+            out.append((raw, parsed, len(data) if kw else view.pos, view.faults))
+        _second_pass(rdr, out, len(data) if kw else view.pos)
     finally:
         sock.close()
     return out, raised, view
@@ -124,6 +169,9 @@ def o_stream(case):
     if case.get("stream") == "socket":
         out, raised, stream = drive_socket(case, data)
         stream.log = []
+    elif case.get("stream") == "file":
+        stream = _FileView(data)
+        out, raised = drive(case, data, stream)
     else:
         stream = ScriptedStream(data, case["script"], slack=32)
         out, raised = drive(case, data, stream)
@@ -155,6 +203,8 @@ def o_stream(case):
             raise Fail("message-number-mismatch", f"delivery {n}: DF002 {df2} but the slice carries number {num}")
     kinds = [i["k"] for i in items]
     cls = [f"qoe{case['qoe']}", "stream-" + case.get("stream", "scripted")]
+    if case.get("enc"):
+        cls.append("chunked-socket-" + case["enc"])
     if case.get("stream") == "socket" and stream.faults:
         cls.append("socket-timeout-or-error-mid-stream")
     hostile = any(k in ("damaged", "decoy") or i.get("arbitrary") or i.get("syncy") for k, i in zip(kinds, items))
@@ -164,7 +214,7 @@ def o_stream(case):
     if "damaged" in kinds:
         cls.append("damaged")
     faults_before_last = out[-1][3] if out else 0
-    if stream.faults and case.get("stream") != "socket":
+    if stream.faults and case.get("stream") not in ("socket", "file"):
         cls.append("fault-applied")
         # was a fault applied inside a valid frame?
         off = 0
@@ -191,14 +241,21 @@ def o_stream(case):
 @st.composite
 def s_stream(draw, tier):
     items = streams.flatten(draw(st.lists(streams.adversarial_items("small"), min_size=1, max_size=12)))
+    if draw(st.integers(0, 11)) == 0:
+        return {"items": items, "script": [], "qoe": draw(st.sampled_from([0, 1, 2])), "stream": "file"}
     if draw(st.integers(0, 3)) == 0:
         n = sum(len(i["b"]) // 2 for i in items)
+        extra = {}
+        if draw(st.integers(0, 2)) == 0:
+            extra = {"enc": draw(st.sampled_from(["none", "gzip", "compress", "deflate"])), "chunk": draw(st.sampled_from([1, 7, 19, 64, 300, 5000])), "term": draw(st.integers(0, 1))}
+            n = 3 * n + 64  # cut positions over the encoded stream
         return {
+            **extra,
             "items": items,
             "script": [],
             "qoe": draw(st.sampled_from([0, 1, 2])),
             "stream": "socket",
-            "cuts": draw(streams.partitions(n)),
+            "cuts": streams.boundaries(items) if not extra and draw(st.integers(0, 3)) == 0 else draw(streams.partitions(n)),
             "faults": draw(st.lists(st.sampled_from([0, 0, 1, 1, 2, 3]), min_size=0, max_size=8)),
             "bufsize": draw(st.sampled_from([1, 3, 64, 512, 4096])),
         }
@@ -225,7 +282,7 @@ SUBS = [
         strategy=s_stream,
         examples=(300, 6000),
         rule="see property rule",
-        need={"fault-inside-valid-frame": 1, "empty-read-inside-valid-frame": 1, "damaged": 1, "decoy:reserved-bits": 1, "decoy:lying-length": 1, "decoy:nested-ubx": 1, "decoy:jumbo-frame": 1, "decoy:split-behind-false-syncs": 1, "decoy:header-junk-rest": 1, "delivered": 10, "socket-timeout-or-error-mid-stream": 1},
+        need={"stream-file": 1, "chunked-socket-gzip": 1, "chunked-socket-none": 1, "fault-inside-valid-frame": 1, "empty-read-inside-valid-frame": 1, "damaged": 1, "decoy:reserved-bits": 1, "decoy:lying-length": 1, "decoy:nested-ubx": 1, "decoy:jumbo-frame": 1, "decoy:split-behind-false-syncs": 1, "decoy:header-junk-rest": 1, "delivered": 10, "socket-timeout-or-error-mid-stream": 1},
         sample=_sample,
     ),
     __import__("pv.fuzz.campaign", fromlist=["make"]).make("C01", ("C01",)),
